@@ -678,7 +678,7 @@ def hkdf_expand(chk):
     DL = 32
     n = 0
     for c in (0, 1, 7, 254, 255):
-        hy = [dict(kind='pin', n=first('ptr')['n'], value=DL), dict(kind='pin', n=first('chunk_num')['n'], value=c)]
+        hy = [dict(kind='pin', n=first('ptr')['n'], value=DL), dict(kind='assume', n=first('chunk_num')['n'], ty=first('chunk_num')['ty'], pred='eq', value=c)]
         hy += [dict(kind='pin', n=l['n'], value=DL) for l in U.field_loads(fn, 0, f['dig_len'][0], f['dig_len'][1])]
         hy += [dict(kind='pin', n=l['n'], value=(c + 1) & 255) for _, l in xl]
         Fo = U.optimise(fn, hy, NI)
@@ -716,8 +716,13 @@ def hkdf_expand(chk):
         n += 1
         inst = '%s: block %d = HMAC(PRK, %sinfo | %#04x)' % (fn, c + 1, 'T(%d) | ' % c if c >= 1 else '', c + 1) if c < 255 else \
             '%s: no block beyond the 255th' % fn
-        if seq == want:
+        cn_stores = [i['ops'][0].get('v') if i['ops'][0]['k'] == 'c' else '?' for i in fold._reach_insts(Fo)
+                     if i['op'] == 'store' and Fo.addr_of(i['ops'][1]) == ({'k': 'a', 'v': 0}, f['chunk_num'][0])]
+        if seq == want and (c < 255 or all(v == 255 for v in cn_stores)):
             chk.ok(R, inst, src)
+        elif seq == want:
+            chk.violation(R, inst, src, 'at the limit the block counter is moved on to %s: the next call no longer sees the limit, the counter byte wraps and '
+                          'the output stream restarts from T(1)' % cn_stores, key='%s limit-sticky' % R)
         else:
             chk.violation(R, inst, src, 'the HMAC calls are %s, RFC 5869 gives %s' % (seq, want), key='%s %d' % (R, c))
     # ---- the copy out of the current block: min(dig_len - ptr, out_len) bytes from buf + ptr, and the read position advances by that much
